@@ -160,7 +160,9 @@ def regenerate_tables():
 FAILED_TRANSLATORS = []
 # which properties consume which translator's output
 TRANSLATOR_USERS = {
-    "gen_tables.py": None,   # everybody
+    # Generated/Tables.lean is imported by Model.C01 (lexer tables), Model.C12 (valences), Model.C18 (periodic table),
+    # Model.C19 (RDKit tables) and Proofs.GenParsedBase; the other properties' models and proofs do not read it
+    "gen_tables.py": {"C01", "C02", "C05", "C06", "C07", "C12", "C14", "C15", "C18", "C19"},
     "gen_tables_c05.py": {"C05", "C06"},
     "gen_tables_c06.py": {"C06"},
     "gen_tables_c07.py": {"C07", "C06"},
@@ -567,7 +569,8 @@ class Run:
             "discharged": discharged,
             "checker_cmd": checker_cmd,
             "trusted_base": ["Lean 4.33.0 kernel"] + ["axiom " + a for a in tb] + [
-                "harness/gen_tables.py (translator)", "harness correspondence check (differential testing)"],
+                "harness/gen_tables*.py + harness/table_probe.py (table translators: AST literal first, otherwise values captured from one traced call / probes of the compiled regex)",
+                "harness correspondence check (differential testing)"],
             "obligation_list": {k: v for k, v in sorted(self.obligations.items())},
             "evaluations": self.evaluations,
             "distinct_nontrivial": len(self.nontrivial),
